@@ -1,2 +1,57 @@
-(* C11 — placeholder: theorems are added as the proofs land. *)
-From EDP Require Import Base.Bytes Term.Term Order.Cmp.
+(* C11 — comparison is a lawful total preorder consistent with == and hash; borrowed orders like owned.
+   Stage reached: the rank layer, the leaf comparisons and identifiers are proved for all terms; the recursive
+   container layer is covered by the exhaustive pair/triple law check of the correspondence run (see DESIGN.md);
+   the full-strength transitivity statement is refuted on the faithful model (recorded finding C11-intransitive). *)
+From EDP Require Import Base.Bytes Base.F64 Term.Term Gen.Ranks Order.Cmp Order.CmpFacts Order.HashStream.
+
+(* the two rank tables (term.rs term_type_order, borrowed.rs type_order) are the same table *)
+Theorem C11_rank_tables_agree : forall t, rank_owned t = rank_borrowed t.
+Proof. destruct t; vm_compute; reflexivity. Qed.
+
+(* antisymmetry across ranks, for all terms *)
+Theorem C11_antisym_across_ranks : forall rank a b, (rank a ?= rank b) <> Eq ->
+  cmp rank a b = CompOpp (cmp rank b a).
+Proof.
+  intros rank a b H. rewrite (cmp_rank rank a b H).
+  assert (H' : (rank b ?= rank a) <> Eq) by (rewrite N.compare_antisym; destruct (rank a ?= rank b); cbn; congruence).
+  rewrite (cmp_rank rank b a H'). apply N.compare_antisym.
+Qed.
+
+(* antisymmetry of the leaf comparisons *)
+Theorem C11_antisym_leaves : 
+  (forall a b, cmp_bytes a b = CompOpp (cmp_bytes b a)) /\
+  (forall n1 d1 n2 d2, cmp_big n1 d1 n2 d2 = CompOpp (cmp_big n2 d2 n1 d1)) /\
+  (forall p q, cmp_pid p q = CompOpp (cmp_pid q p)) /\
+  (forall x y : Z, (x ?= y)%Z = CompOpp (y ?= x)%Z).
+Proof. repeat split; [apply cmp_bytes_antisym|apply cmp_big_antisym|apply cmp_pid_antisym|intros; apply Z.compare_antisym]. Qed.
+
+(* mixed integer representations are antisymmetric by construction *)
+Theorem C11_antisym_int_big : forall rank x n d, rank (TInt x) = rank (TBig n d) ->
+  cmp rank (TInt x) (TBig n d) = CompOpp (cmp rank (TBig n d) (TInt x)).
+Proof. intros rank x n d H. cbn [cmp]. rewrite H, N.compare_refl. now rewrite CompOpp_involutive. Qed.
+
+Theorem C11_antisym_int_float : forall rank x f, rank (TInt x) = rank (TFloat f) ->
+  cmp rank (TInt x) (TFloat f) = CompOpp (cmp rank (TFloat f) (TInt x)).
+Proof. intros rank x f H. cbn [cmp]. rewrite H, N.compare_refl. now rewrite CompOpp_involutive. Qed.
+
+(* == on byte strings is exactly Equal *)
+Theorem C11_bytes_eq_iff : forall a b, cmp_bytes a b = Eq <-> a = b.
+Proof. intros a b; split; [apply cmp_bytes_eq|intros ->; apply cmp_bytes_refl]. Qed.
+
+(* full-strength transitivity is FALSE of the faithful model: the recorded finding, replayed on the implementation
+   by the check as `ord: cmp i 9007199254740993 | f 4340000000000000 | i 9007199254740992` *)
+Theorem C11_refuted_transitivity : exists a b c,
+  wf a = true /\ wf b = true /\ wf c = true /\
+  cmp_owned a b <> Gt /\ cmp_owned b c <> Gt /\ cmp_owned a c = Gt.
+Proof.
+  exists (TInt 9007199254740993), (TFloat 4845873199050653696), (TInt 9007199254740992).
+  repeat split; try (vm_compute; reflexivity); vm_compute; discriminate.
+Qed.
+
+(* after the fix commit dd140f3: +0.0 and -0.0 are equal, compare Equal and hash alike *)
+Theorem C11_zero_consistent :
+  teqb (TFloat 0) (TFloat 9223372036854775808) = true /\ cmp_owned (TFloat 0) (TFloat 9223372036854775808) = Eq
+  /\ hash_eqb (TFloat 0) (TFloat 9223372036854775808) = true.
+Proof. repeat split; vm_compute; reflexivity. Qed.
+
+Check C11_antisym_across_ranks.
